@@ -313,23 +313,28 @@ pub fn c01_writer_thread_append(cfg: &Value) {
         stream.on_next = Some(Box::new(move |seen| {
             if let Seen::Tagged(t) = seen {
                 if t.p == 0 {
-                    let q = slot.lock().unwrap_or_else(|e| e.into_inner()).clone();
+                    // (never a scheduler-visible step - a clone or drop of the handle - while the
+                    // std mutex is held: all model threads share one OS thread)
+                    let q = slot.lock().unwrap_or_else(|e| e.into_inner()).take();
                     if let Some(q) = q {
                         q.append(Tag { p: 9, seq: t.seq });
+                        *slot.lock().unwrap_or_else(|e| e.into_inner()) = Some(q);
                     }
                 }
             }
         }));
     }
     let (q, handle) = build(boxed, 8, stream);
-    *slot.lock().unwrap_or_else(|e| e.into_inner()) = Some(q.clone());
+    let for_stream = q.clone();
+    *slot.lock().unwrap_or_else(|e| e.into_inner()) = Some(for_stream);
     for si in 0..n {
         q.append(Tag { p: 0, seq: si as u8 });
     }
     // a flush request orders the follow-up entries before the shutdown begins
     let ((), _snap) = wait_with_snapshot(q.flush_async(), &log);
     let ((), _snap) = wait_with_snapshot(q.flush_async(), &log);
-    *slot.lock().unwrap_or_else(|e| e.into_inner()) = None;
+    let from_stream = slot.lock().unwrap_or_else(|e| e.into_inner()).take();
+    drop(from_stream);
     drop(q);
     drop(handle);
     let end = log.lock().unwrap_or_else(|e| e.into_inner()).clone();
@@ -365,20 +370,25 @@ pub fn c04_request_during_flush(cfg: &Value) {
         let (slot, second) = (slot.clone(), second.clone());
         let mut fired = false;
         stream.on_flush = Some(Box::new(move |_idx| {
-            let q = slot.lock().unwrap_or_else(|e| e.into_inner()).clone();
-            if let (false, Some(q)) = (fired, q) {
+            // (the handle is moved out of and back into the slot: no scheduler-visible step
+            // while a std mutex is held)
+            let q = if fired { None } else { slot.lock().unwrap_or_else(|e| e.into_inner()).take() };
+            if let Some(q) = q {
                 fired = true;
                 for si in 0..burst {
                     q.append(Tag { p: 1, seq: si as u8 });
                 }
-                *second.lock().unwrap_or_else(|e| e.into_inner()) = Some(q.flush_async());
+                let r2 = q.flush_async();
+                *second.lock().unwrap_or_else(|e| e.into_inner()) = Some(r2);
+                *slot.lock().unwrap_or_else(|e| e.into_inner()) = Some(q);
             }
         }));
     }
     let (q, handle) = build(false, 128, stream);
     q.append(Tag { p: 0, seq: 0 });
     // only from now on may the flush callback fire (the periodic flush before would be too early)
-    *slot.lock().unwrap_or_else(|e| e.into_inner()) = Some(q.clone());
+    let for_stream = q.clone();
+    *slot.lock().unwrap_or_else(|e| e.into_inner()) = Some(for_stream);
     let ((), _snap1) = wait_with_snapshot(q.flush_async(), &log);
     let r2 = second.lock().unwrap_or_else(|e| e.into_inner()).take();
     if let Some(r2) = r2 {
@@ -390,7 +400,8 @@ pub fn c04_request_during_flush(cfg: &Value) {
     } else {
         mc::outcome("the stream was not flushed for r1 while the slot was set".into());
     }
-    *slot.lock().unwrap_or_else(|e| e.into_inner()) = None;
+    let from_stream = slot.lock().unwrap_or_else(|e| e.into_inner()).take();
+    drop(from_stream);
     drop(q);
     drop(handle);
 }
